@@ -178,6 +178,8 @@ def one_case(run, scenario, pv, default_pv, k, abrupt, rng_bytes, hook_log):
     server = mcserver.Server(handler)
     rec = pc.Recorder()
     w = {'scenario': scenario, 'pv': pv, 'cut_at': k, 'abrupt': abrupt}
+    if abrupt:
+        run.count('cuts_with_reset')
     conn = None
     try:
         if scenario == 'status-default-outside':
@@ -225,10 +227,33 @@ def one_case(run, scenario, pv, default_pv, k, abrupt, rng_bytes, hook_log):
         else:
             conn.connect()
         done = False
+        busy = 0
+        cpu0 = {}
         for _ in range(20):
             done = pc.wait_idle(conn, 1.0)
             if done or len(server.connections) > 6:
                 break
+            # alive but not finished: blocked (no CPU) or spinning?
+            hot = False
+            for t in pc.threads_of(conn):
+                c = pc.thread_cpu_seconds(t)
+                if c is not None:
+                    if c - cpu0.get(t, c) > 0.6:
+                        hot = True
+                    cpu0[t] = c
+            busy = busy + 1 if hot else 0
+            if busy >= 3:
+                break
+        if not done and busy >= 3:
+            # three consecutive seconds of > 60 % CPU in the networking thread
+            # with nothing left to read or write: it is polling, not waiting
+            run.violation('eof/spin', 'after the server had gone away the '
+                          'networking thread kept running at full speed '
+                          'without terminating or reporting anything',
+                          dict(w, errors=repr(rec.exceptions[:1])))
+            pc.safe_disconnect(conn)
+            pc.wait_idle(conn, 5.0)
+            return 'ok', w
         if not done and len(server.connections) > 4:
             # not blocked but busy: the client keeps opening connections
             n = len(server.connections)
@@ -256,6 +281,8 @@ def one_case(run, scenario, pv, default_pv, k, abrupt, rng_bytes, hook_log):
         total = io.sent_wire if io is not None else 0
         cut = state.get('cut', False)
         w['sent'] = total
+        if io is not None:
+            w['boundaries'] = sorted({e[2] for e in io.frame_log})
         # ---- spin / bounded reads -----------------------------------------
         proxies = getattr(conn, 'vf_file_proxies', [])
         empty = max([p.empty_reads for p in proxies] or [0])
@@ -424,6 +451,65 @@ def one_case(run, scenario, pv, default_pv, k, abrupt, rng_bytes, hook_log):
                 pass
 
 
+def refused_after_status_case(run, pv, default_pv, hook_log):
+    """The server answers the negotiation's status query completely and is
+    then gone: the login connection the client opens next is *refused*.  The
+    failure arises inside the client's own reaction (which has just ended the
+    status connection), and must be reported like any other."""
+    from ..ref import core_packets as ref
+    state = {}
+
+    def handler(io):
+        hs = scripts.read_handshake(io)
+        state.setdefault('handshakes', []).append(hs)
+        if io.recv_frame() is None:
+            return
+        # stop listening *before* the reply goes out: the client reconnects
+        # as soon as it has read it
+        io.server.refuse_from_now()
+        io.send_frame(0x00, ref.encode_field('string', json.dumps(
+            {'version': {'name': 'vf', 'protocol': pv},
+             'description': {'text': 'x'}})))
+        io.half_close()
+        try:
+            io.wait_eof(6.0)
+        except mcserver.ScriptTimeout:
+            state['client_never_closed'] = True
+    server = mcserver.Server(handler)
+    rec = pc.Recorder()
+    w = {'scenario': 'status-then-refused', 'pv': pv}
+    conn = None
+    try:
+        conn = pc.make_connection(server.port, rec,
+                                  allowed_versions={pv, default_pv},
+                                  initial_version=default_pv)
+        del hook_log[:]
+        conn.connect()
+        if not pc.wait_idle(conn, 20.0):
+            return None, 'threads alive: ' + pc.dump_threads()
+        server.join(8.0)
+        if [e for e in server.errors if e[1] == 'script']:
+            return None, 'server script error %r' % (server.errors[:1],)
+        run.count('refused_after_status')
+        if len(server.connections) != 1:
+            return None, 'the refusal did not take effect'
+        if not rec.exceptions and not hook_log:
+            run.violation('eof/silent/login-connect-refused', 'the login '
+                          'connection that follows the status query was '
+                          'refused and nothing was reported', dict(
+                              w, exits=rec.exits))
+        else:
+            run.count('errors_reported')
+        if state.get('client_never_closed'):
+            run.violation('eof/transport-left-open', 'the status connection '
+                          'was never closed', w)
+        return 'ok', w
+    finally:
+        server.stop()
+        if conn is not None:
+            pc.safe_disconnect(conn)
+
+
 def run(run):
     thorough = run.tier == 'thorough'
     run.level = 'fault_enumeration'
@@ -452,6 +538,18 @@ def run(run):
                 (736, 735), (110, 109)] if thorough else [(757, 754)]
     try:
         n = 0
+        for vi, (pv, default_pv) in enumerate(versions):
+            if run.mine(900000 + vi):
+                res = None
+                for attempt in range(3):
+                    res, info = refused_after_status_case(run, pv, default_pv,
+                                                          hook_log)
+                    if res is not None:
+                        break
+                run.case(('status-then-refused', pv))
+                if res is None:
+                    run.inconclusive_because('status-then-refused@%d: %s'
+                                             % (pv, info))
         for pv, default_pv in versions:
             for scenario in SCENARIOS:
                 # dry run: total length and frame boundaries
@@ -466,8 +564,13 @@ def run(run):
                     '%s@%d' % (scenario, pv)] = total
                 offsets = list(range(-1, total + 1))     # every crash point
                 # (-1 = the peer closes right after accepting)
-                modes = (False, True) if thorough else (False,)
+                bounds = set(w.get('boundaries', ()))
                 for k in offsets:
+                    # a reset instead of an orderly close: everywhere in
+                    # thorough; at frame boundaries (the reader is then waiting
+                    # between frames) and a sample of other offsets in quick
+                    modes = (False, True) if (
+                        thorough or k in bounds or k % 9 == 0) else (False,)
                     for abrupt in modes:
                         n += 1
                         if not run.mine(n):
@@ -492,3 +595,5 @@ def run(run):
     run.require('errors_reported', 20)
     run.require('cuts.inside-frame', 10)
     run.require('cuts.frame-boundary', 20)
+    run.require('cuts_with_reset', 10)
+    run.require('refused_after_status', 1)
